@@ -82,6 +82,7 @@ type nameGen struct {
 	Targets []string // absolute paths of existing things outside Root (canary files and dirs)
 	Inside  []string // relative paths of existing things inside Root
 	Suffix  []string // suffixes that turn the root's name into a sibling's name
+	Embed   []string // absolute paths of existing things below a replica of Root's absolute path inside a foreign tree
 }
 
 var plainSegs = []string{"a", "b", "c", "rec", "dir", "data.json", "k1", "k2", "note", "x_y", "v1", "new", "cfg", "core", "ui"}
@@ -110,7 +111,7 @@ func (g *nameGen) plain(r *vlib.Rand) string {
 // next returns a name and the generator class it came from.
 func (g *nameGen) next(r *vlib.Rand) (string, string) {
 	var name, kind string
-	switch r.Intn(14) {
+	switch r.Intn(15) {
 	case 0, 1:
 		return g.plain(r), "plain"
 	case 2, 3, 4:
@@ -166,6 +167,17 @@ func (g *nameGen) next(r *vlib.Rand) (string, string) {
 			segs[i] = vlib.Pick(r, alpha...)
 		}
 		name = strings.Join(segs, vlib.Pick(r, "/", "/", "/", "//"))
+	case 14:
+		// <foreign tree>/<absolute path of the root>/<elem>: clean, absolute, no "..", no
+		// shared name prefix, but the root's path is an inner substring
+		if len(g.Embed) == 0 {
+			return g.plain(r), "plain"
+		}
+		kind = "embed"
+		name = vlib.Pick(r, g.Embed...)
+		if r.Chance(1, 4) {
+			name = filepath.Join(filepath.Dir(name), vlib.Pick(r, "fresh", "nd/x", "n_v9-9-9.zip"))
+		}
 	case 12:
 		kind = "lookalike"
 		base := filepath.Base(g.Root)
